@@ -249,6 +249,11 @@ def _analyse(i):
     crate = Crate(facts.load(os.path.join(wdir, w.name + ".json")))
     prog.add(crate, (w.name, True))
     prog.crate("lexgen_util")
+    try:
+        from . import rules_runtime as _rr
+        _rr.use_saved_layout(prog)
+    except Exception:
+        pass
     exps = lts.find_expansions(crate)
     res.programs = len(exps)
     for exp in exps:
